@@ -20,7 +20,8 @@ def runner_tasks(tier):
             {"module": "c08", "task": "invalid_neighbours", "kind": "eval", "clause": "invalid neighbours raise or match"},
             {"module": "c10", "task": "formula_routing", "name": "pickle routing", "kind": "eval", "clause": "pickle / deepcopy identity in process, in another interpreter, and after the table variable was dropped"},
             {"module": "stateful", "task": "C08", "name": "stateful", "kind": "bounded", "clause": "lookups after the table changed (isotope added after .isotopes was read; key leak between lookups)"},
-            {"module": "stateful", "task": "identity", "name": "atom identity", "kind": "bounded", "clause": "different atoms are unequal, distinct dictionary keys, kept apart by formulas"}]
+            {"module": "stateful", "task": "identity", "name": "atom identity", "kind": "bounded", "clause": "different atoms are unequal, distinct dictionary keys, kept apart by formulas"},
+            {"module": "independence", "task": "observations", "name": "independence", "kind": "bounded", "arg": {"tags": ["C08"]}, "clause": "fixed observations give the same value as the first use of the library in a fresh interpreter, in a warmed-up interpreter (twice) and in reverse order, and have their documented value", "timeout": 900}]
 
 
 REPLAY = {"module": "c08", "task": "replay"}
